@@ -62,11 +62,25 @@ theorem isInSearchStage_keys (T : Tables) (a b : List (Str × J)) (h : keysOf a 
     | cons p t ih => obtain ⟨k, v⟩ := p; simp [keysOf] at ih ⊢; rw [ih]
   simp only [isInSearchStage, this, h]
 
+theorem lookup_isSome_keys {α} (k : Str) : ∀ (a b : List (Str × α)), keysOf a = keysOf b →
+    (lookup k a).isSome = (lookup k b).isSome
+  | [], [], _ => rfl
+  | [], _ :: _, h => by simp [keysOf] at h
+  | _ :: _, [], h => by simp [keysOf] at h
+  | (ka, va) :: ra, (kb, vb) :: rb, h => by
+    simp only [keysOf_cons, List.cons.injEq] at h
+    obtain ⟨h1, h2⟩ := h
+    subst h1
+    by_cases e : ka = k
+    · simp [lookup, e]
+    · simp [lookup, e, lookup_isSome_keys k ra rb h2]
+
 /-- on an object the action depends on the object through its key list only -/
 theorem node_obj_keys (c : Ctx) (s : St) (a b : List (Str × J)) (h : keysOf a = keysOf b) :
     c.node s (.obj a) = c.node s (.obj b) := by
   have hs := isInSearchStage_keys c.T a b h
-  cases s <;> simp [node, hs]
+  have hi := lookup_isSome_keys sInsert a b h
+  cases s <;> simp [node, hs, hi]
 
 /-- in full-redaction mode the state of a child does not depend on the child's value -/
 theorem node_obj_indep (c : Ctx) (hre : c.cfg.re = none) (s : St) (a : List (Str × J)) (f : Str → J → Str × St)
